@@ -148,6 +148,14 @@ def build_bases(tier: str) -> list[dict]:
                 n_tab += not b["carrier"]
     for t in pool.deep_valid():
         extra.append({"text": t, "spelling": "LF", "carrier": False, "deep": True})
+    # long records: data files of 800-5000 bytes and a block indented 14 levels deep; cut after every line and damaged
+    # at seeded places (not at every character: a parse of 5 kB takes tens of milliseconds)
+    for _rel, content in pool.data_files(5000):
+        if len(content) > 800 and pool._nesting(content) <= pool.MAX_NEST:
+            extra.append({"text": content, "spelling": "LF", "carrier": False, "long": True})
+    ladder = "".join("    " * i + f"if a{i}:\n" for i in range(14)) + "    " * 14 + "x = (1,\n" + "    " * 14 + " 2)\n" + \
+        "".join("    " * i + f"b{i} = {i}\n" for i in range(13, 0, -1))
+    extra.append({"text": ladder, "spelling": "LF", "carrier": False, "long": True})
     seen = set()
     out = []
     for b in bases + extra:
@@ -183,6 +191,13 @@ def enumerate_task(task: dict):
         yield {"kind": "none"}, base
     elif part == "trunc":
         yield from worldb.truncations(base)
+    elif part == "trunc_lines":
+        pos = 0
+        for ln in worldb.split_lf(base)[:-1]:
+            pos += len(ln)
+            yield {"kind": "truncate", "at": pos}, base[:pos]
+            if len(ln) > 3:
+                yield {"kind": "truncate", "at": pos - 2}, base[: pos - 2]
     elif part == "flips":
         lo, hi = task["range"]
         yield from worldb.flips(base, range(lo, hi))
@@ -207,6 +222,11 @@ def build_tasks(tier: str, bases: list[dict]) -> list[dict]:
         tasks.append({**common, "part": "trunc"})
         if b.get("deep"):
             continue
+        if b.get("long"):
+            tasks[-1] = {**common, "part": "trunc_lines"}
+            rng = rng_for(SEED, "closure", bi, "others")
+            tasks.append({**common, "part": "seeded", "others": [rng.choice(texts) for _ in range(2)], "n": 40})
+            continue
         exhaustive = len(t) <= cfg["exh_limit"] and (b["carrier"] or not cfg["exh_carriers_only"])
         if exhaustive:
             step = max(1, cfg["batch"] // len(worldb.ALPHABET))
@@ -227,6 +247,8 @@ def merge_small_tasks(tasks: list[dict], target: int) -> list[list[dict]]:
             return 1
         if t["part"] == "trunc":
             return len(t["base"])
+        if t["part"] == "trunc_lines":
+            return 40 * t["base"].count("\n")  # long texts: each delivery costs tens of milliseconds
         if t["part"] == "flips":
             return (t["range"][1] - t["range"][0]) * (len(worldb.ALPHABET) - 1)
         if t["part"] == "edits":
